@@ -26,6 +26,11 @@ extern "C" int LLVMFuzzerTestOneInput(const uint8_t *data, size_t size) {
 	if (size && (data[size - 1] & 7) == 7) g.warm = 1 + ((data[size - 1] >> 3) & 3);   // 1/8 of the cases: the encoder runs on a handle that has just encoded something else
 	uint32_t maxlen = sizeclass < 150 ? (1u << 14) : (sizeclass < 235 ? (1u << 18) : (3u << 20));
 	Recipe r = draw_recipe(c, maxlen, g.lz.dict_size);
+	const bool plan_case = (hash_bytes(data, size) % 11) < 3;    // ~27 %: encoded with flush actions between the pieces (see below)
+	if (plan_case && (hash_bytes(data, size) >> 8) % 2 == 0) {   // half of them on repetitive, word-like data of a few KiB (tree neighbours with equal prefixes)
+		if (r.kind == RK_RANDOM || r.kind == RK_CONST || r.kind == RK_LITERAL || r.kind == RK_ZERO_RUNS) r.kind = RK_TEXT;
+		r.alpha = 2 + (uint32_t)((hash_bytes(data, size) >> 12) & 3); if (r.len < 3000) r.len = 3000 + (r.seed % 9000);
+	}
 	if (sizeclass >= 235 && sizeclass < 250 && !g.use_preset && g.lz.dict_size <= (1u << 16) && r.len < (600u << 10)) r.len = (600u << 10) + (r.len & 0xFFFFF); // window slides: > 1.5*dict + 0.5 MiB
 	if (sizeclass >= 225 && sizeclass < 235) {
 		// > 2 MiB of input that compresses better than 32:1: the LZMA2 encoder closes a chunk because of the 2 MiB *uncompressed*
@@ -41,30 +46,51 @@ extern "C" int LLVMFuzzerTestOneInput(const uint8_t *data, size_t size) {
 	const bool micro = g.entry == ec::E_MICROLZMA;
 	set_desc("{\"cfg\":" + g.describe() + ",\"input\":" + r.describe() + ",\"enc_schedule\":" + esch.describe() + ",\"dec_schedule\":" + dsch.describe() + "}");
 
-	// a multi-call encoder may be told new LZMA2 lc/lp/pb in the middle of the data (LZMA_SYNC_FLUSH, then lzma_filters_update):
-	// still "an encoder configuration the library accepts", and the whole output must still decode to the whole input
-	const bool mid_update = (g.entry == ec::E_STREAM || g.entry == ec::E_RAW) && !g.use_preset && g.last_id() == LZMA_FILTER_LZMA2 && !g.has_bcj && in.size() >= 2 && c.rare(64);
+	// a multi-call encoder may be driven with flush actions between the pieces of its input and may be told new LZMA2 lc/lp/pb after a
+	// sync flush: still "an encoder configuration the library accepts", and the whole output must still decode to the whole input.
+	// Plan: 1..12 cut points, at each LZMA_SYNC_FLUSH (LZMA2 / delta+LZMA2 chains) or, for the .xz encoders, LZMA_FULL_FLUSH /
+	// LZMA_FULL_BARRIER; after one of the sync flushes optionally lzma_filters_update() with other lc/lp/pb.
+	const bool flushable_chain = g.use_preset || (g.last_id() == LZMA_FILTER_LZMA2 && !g.has_bcj);   // (a preset is LZMA2 alone)
+	const bool xz_multi = g.entry == ec::E_STREAM || g.entry == ec::E_STREAM_MT || g.entry == ec::E_EASY;
+	const bool mid_update = ((g.entry == ec::E_STREAM || g.entry == ec::E_RAW) && flushable_chain || xz_multi) && in.size() >= 2 && plan_case;
 	ec::Encoded E;
 	if (mid_update) {
 		lzma_stream s = LZMA_STREAM_INIT; s.allocator = AL();
 		lzma_ret ir = ec::init_encoder(&s, g);
 		if (ir == LZMA_MEM_ERROR) { lzma_end(&s); count("environment_alloc_cap"); return 0; }
 		if (ir != LZMA_OK) violation("C01:encode-failed", "encoder init returned %s", drv::retname(ir));
-		const size_t cut = 1 + c.u32() % (in.size() - 1);
-		drv::Opts o1; o1.final_action = LZMA_SYNC_FLUSH; o1.out_cap = 48u << 20;
-		drv::Result a = drv::run(&s, in.data(), cut, esch, o1);
-		if (a.ret == LZMA_MEM_ERROR) { lzma_end(&s); count("environment_alloc_cap"); return 0; }
-		if (a.ret != LZMA_STREAM_END) violation("C01:encode-failed", "LZMA_SYNC_FLUSH after %zu bytes returned %s", cut, drv::retname(a.ret));
-		uint32_t nlc = c.u(5), nlp = c.u(5 - nlc), npb = c.u(5);
-		lzma_options_lzma lz2 = g.lz; lz2.lc = nlc; lz2.lp = nlp; lz2.pb = npb;
-		lzma_filter f2[LZMA_FILTERS_MAX + 1]; unsigned nf = 0; for (; nf < g.nfilters; ++nf) f2[nf] = g.filters[nf]; f2[nf].id = LZMA_VLI_UNKNOWN; f2[nf].options = NULL; f2[nf - 1].options = &lz2;
-		lzma_ret ur = lzma_filters_update(&s, f2);
-		if (ur != LZMA_OK) violation("C12:update-refused", "lzma_filters_update(lc=%u lp=%u pb=%u) right after a completed LZMA_SYNC_FLUSH returned %s", nlc, nlp, npb, drv::retname(ur));
-		drv::Opts o2; o2.out_cap = 48u << 20;
-		drv::Result b = drv::run(&s, in.data() + cut, in.size() - cut, esch, o2); lzma_end(&s);
-		E.ret = b.ret; E.bytes = a.out; E.bytes.insert(E.bytes.end(), b.out.begin(), b.out.end()); E.total_in = a.total_in + b.total_in; E.capped = a.capped || b.capped;
-		{ std::string &d = g_stats.current; if (!d.empty() && d.back() == '}') { d.pop_back(); char t[120]; snprintf(t, sizeof t, ",\"sync_flush_and_update_at\":%zu,\"new_lclppb\":[%u,%u,%u]}", cut, nlc, nlp, npb); d += t; } }
-		count("lclppb_changed_after_sync_flush");
+		const bool can_sync = flushable_chain && g.entry != ec::E_STREAM_MT;     // (the threaded encoder has no LZMA_SYNC_FLUSH)
+		// (the plan is drawn from a PRNG seeded with the case: most cases have used up their bytes by now, and exhausted draws are constants)
+		Rng pr(hash_bytes(data, size) ^ 0xF1A5);
+		unsigned ncut = 1 + pr.below(12); if (pr.below(5) == 0) ncut = 40 + pr.below(260);   // sometimes hundreds of flushes in one stream
+		if (ncut > in.size() - 1) ncut = (unsigned)(in.size() - 1); std::vector<size_t> cuts; for (unsigned i = 0; i < ncut; ++i) cuts.push_back(1 + (size_t)(pr.next() % (in.size() - 1))); std::sort(cuts.begin(), cuts.end());
+		for (unsigned i = 1; i < ncut; ++i) if (pr.below(3) == 0) cuts[i] = std::min(in.size() - 1, cuts[i - 1] + 1 + pr.below(4));   // flushes only a few bytes apart (fewer new bytes than nice_len)
+		std::sort(cuts.begin(), cuts.end());
+		if (pr.below(3) == 0) {   // dense: a flush every 1..8 bytes for a few hundred flushes
+			size_t at = 1 + (size_t)(pr.next() % (in.size() - 1)); cuts.clear(); for (unsigned i = 0; i < 400 && at < in.size(); ++i) { cuts.push_back(at); at += 1 + pr.below(8); } ncut = (unsigned)cuts.size(); count("dense_flushes"); }
+		const int upd_at = can_sync && !g.use_preset && pr.below(2) ? (int)pr.below(ncut) : -1; std::string plan; size_t pos = 0; bool bad = false; drv::Opts o1; o1.out_cap = 48u << 20; if (g.entry == ec::E_STREAM_MT) { o1.idle_limit = 1u << 30; if (g.timeout) { o1.small_call_budget = 1500; o1.extra_calls = 100000; } }
+		for (unsigned i = 0; i < ncut && !bad; ++i) {
+			lzma_action a = can_sync && (!xz_multi || pr.below(3) != 0) ? LZMA_SYNC_FLUSH : (pr.below(2) ? LZMA_FULL_FLUSH : LZMA_FULL_BARRIER);
+			if (!can_sync && !xz_multi) break;
+			o1.final_action = a; drv::Result r1 = drv::run(&s, in.data() + pos, cuts[i] - pos, esch, o1); pos = cuts[i];
+			E.bytes.insert(E.bytes.end(), r1.out.begin(), r1.out.end()); E.total_in += r1.total_in; E.capped |= r1.capped;
+			plan += (a == LZMA_SYNC_FLUSH ? "S" : a == LZMA_FULL_FLUSH ? "F" : "B") + std::to_string(cuts[i]) + " ";
+			if (r1.ret == LZMA_MEM_ERROR) { lzma_end(&s); count("environment_alloc_cap"); return 0; }
+			if (r1.ret != LZMA_STREAM_END) violation("C01:encode-failed", "flush action %d after %zu bytes returned %s", (int)a, cuts[i], drv::retname(r1.ret));
+			if ((int)i == upd_at && a == LZMA_SYNC_FLUSH) {
+				uint32_t nlc = pr.below(5), nlp = pr.below(5 - nlc), npb = pr.below(5);
+				lzma_options_lzma lz2 = g.lz; lz2.lc = nlc; lz2.lp = nlp; lz2.pb = npb;
+				lzma_filter f2[LZMA_FILTERS_MAX + 1]; unsigned nf = 0; for (; nf < g.nfilters; ++nf) f2[nf] = g.filters[nf]; f2[nf].id = LZMA_VLI_UNKNOWN; f2[nf].options = NULL; f2[nf - 1].options = &lz2;
+				lzma_ret ur = lzma_filters_update(&s, f2);
+				if (ur != LZMA_OK) violation("C12:update-refused", "lzma_filters_update(lc=%u lp=%u pb=%u) right after a completed LZMA_SYNC_FLUSH returned %s", nlc, nlp, npb, drv::retname(ur));
+				plan += "U" + std::to_string(nlc) + std::to_string(nlp) + std::to_string(npb) + " "; count("lclppb_changed_after_sync_flush");
+			}
+		}
+		drv::Opts o2 = o1; o2.final_action = LZMA_FINISH;
+		drv::Result b = drv::run(&s, in.data() + pos, in.size() - pos, esch, o2); lzma_end(&s); lzma_verif_mf_offset_bias = 0;
+		E.ret = b.ret; E.bytes.insert(E.bytes.end(), b.out.begin(), b.out.end()); E.total_in += b.total_in; E.capped |= b.capped;
+		{ std::string &d = g_stats.current; if (!d.empty() && d.back() == '}') { d.pop_back(); d += ",\"flush_plan\":\"" + plan + "\"}"; } }
+		count("encoded_with_flush_actions_between_pieces"); if (getenv("VERIF_C01_DEBUG")) fprintf(stderr, "PLAN entry=%s preset=%d mf=%d mode=%d nice=%u in=%zu ncut=%u plan=%.60s\n", ec::entry_names[g.entry], (int)g.use_preset, (int)g.lz.mf, (int)g.lz.mode, g.lz.nice_len, in.size(), ncut, plan.c_str());
 	} else E = ec::encode_all(g, in, esch, AL());
 	if (E.ret == LZMA_MEM_ERROR) { count("environment_alloc_cap"); return 0; }
 	if (E.capped) { count("inconclusive_capped"); return 0; }
